@@ -113,7 +113,6 @@ func (exp *exporter) writeTOC(w io.Writer, toctype toc, opts map[string][]ast.In
 			level = 1
 			previousTitleLevel = titleLevel
 		case titleLevel > previousTitleLevel:
-			diference := titleLevel - previousTitleLevel
 			switch toctype {
 			case xhtmlToc:
 				fmt.Fprint(w, strings.Repeat("  ", level+1), "<ul>\n")
@@ -121,7 +120,9 @@ func (exp *exporter) writeTOC(w io.Writer, toctype toc, opts map[string][]ast.In
 				fmt.Fprint(w, strings.Repeat("  ", level+1), "<ol>\n")
 			}
 			previousTitleLevel = titleLevel
-			level = level + diference
+			// one list is opened, whatever the number of title
+			// levels skipped
+			level++
 		case titleLevel < previousTitleLevel:
 			diference := titleLevel - previousTitleLevel
 			if diference+level < 1 {
